@@ -39,7 +39,7 @@ def floors(tier):
     return {"graph_to_density:calls": 300, "graph_to_stabilizer:calls": 300, "density_to_graph:calls": 200,
             "stabilizer_to_graph:calls": 300, "stabilizer_to_graph:noncanonical_presentations": 200, "state_to_graph:calls": 500,
             "state_to_graph:with_hadamards": 100, "state_to_graph:negative_signs": 200, "convert:pairs": 1000,
-            "set:convert_pairs": 6, "graphs:n>=20": 20}
+            "set:convert_pairs": 6, "graphs:n>=20": 20, "state_to_graph:zero_sign_bits_nonstandard_presentation": 30}
 
 
 class FinderProbe:
@@ -87,6 +87,26 @@ def run_shard(spec, ctx):
     else:
         for i in range(spec["count"]):
             n = int(rng.integers(1, 13))
+            if i % 3 == 2:
+                # graph states with Pauli-Z by-products, presented by non-standard generating sets - preferably one whose
+                # stored sign bits are all zero although the state is not +|G> (the sign hides in products of generators)
+                n = int(rng.integers(2, 9))
+                t = group_of(graphs.random_graph(rng, n, [0.3, 0.6, 0.9][i % 3]) if i % 2 else graphs.random_connected_graph(rng, n, 0.5))
+                for q in range(n):
+                    if rng.random() < 0.4:
+                        t.z(q)
+                best = None
+                for _ in range(60):
+                    c = pauli.scramble_generators(rng, t)
+                    r = c.to_graphiq()[2]
+                    if best is None or r.sum() < best[0]:
+                        best = (int(r.sum()), c)
+                    if best[0] == 0:
+                        break
+                if best[0] == 0 and not pauli.same_group_fast(best[1], group_of(np.zeros((n, n), dtype=int))):
+                    ctx.count("state_to_graph:zero_sign_bits_nonstandard_presentation")
+                check_state(best[1], ctx, rng, probe)
+                continue
             t = stab.y_heavy_state(rng, n) if i % 2 else pauli.random_stabilizer_group(rng, n, length=int(rng.integers(0, 5 * n + 1)))
             check_state(t, ctx, rng, probe)
 
